@@ -93,6 +93,9 @@ def snapshot(player, kind):
 def run(ch, tier):
     res = Result()
     cfg = swarm(ch.s('cfg'), Cfg(contracts=True, bump=True, sends=True, delays=True, history=True), tier)
+    if ch.s('cfg').flag(1, 2):      # history gadgets: the remembered sub-configuration is part of the durable state
+        cfg.history = cfg.force_history = True
+        cfg.max_states = max(cfg.max_states, 8)
     sp = gen_spec(ch.s('chart'), cfg)
     ops = ch.s('ops')
     gs = ch.s('guards')
